@@ -16,7 +16,8 @@ check("C17", "S", "exploration", "runtime contract (icontract ensure) on the rea
       "All assignments of subsets of three state names to up to three images (and memory files) are enumerated and thousands of "
       "random listings in both qemu-img layouts are rendered; the real QCOW2VTBackend.show / QCOW2Backend.show / "
       "RamfileBackend._show are executed on them and a postcondition compares every result with the intersection computed "
-      "independently. Sampling beyond the enumerated core: held on the executions observed, not a proof.",
+      "independently (images configured read-only still count). Sampling beyond the enumerated core: held on the executions observed, "
+      "not a proof.",
       "Trusted: the port of qemu's size_to_str and row format used to render listings; QemuImg and os replaced at the same "
       "seams the selftests use.", "DESIGN.md §3 C17")
 
@@ -51,7 +52,8 @@ check("C12", "S", "exploration", "reference-model monitor: in-memory backend in 
       "state x nets/vms/images x 5 check modes, plus check/push/pop) is enumerated; random multi-object calls (1-3 vms x 1-2 images + net, "
       "per-object modes, skip_types, read-only images, parameters of unselected objects) and random sequences of up to 12 calls run against a "
       "set-of-names model; ordered backend calls, resulting store and exception class must agree, the failing step must not mutate and later "
-      "objects must not be touched.",
+      "objects must not be touched; the backend also records the pool_scope every state operation reaches it with, which must be the "
+      "configured one (a pool-aware backend decides by it where to look).",
       "Trusted: the model's reading of the README table and of the undocumented check_mode (second letter r/f when the root is missing, first "
       "letter f recreates the root). The in-memory backend is not a SourcedStateBackend.", "DESIGN.md §3 C12")
 
@@ -61,7 +63,9 @@ check("C13", "S", "exploration", "recording stub transport/local hooks under the
       "operations x scope subsets x root presence x image equality; the transport call log must show: only permitted sources "
       "contacted, get uses exactly one closest permitted source and downloads iff present and cache invalid, set/unset reach "
       "every permitted mirror, refusals raise. Layer 2 keeps the real QCOW2ImageTransfer over an in-memory file table with "
-      "generated backing chains: compare_chain == file-by-file equality, valid cache => no download, invalid => exactly the chain's files.",
+      "generated backing chains: compare_chain == file-by-file equality, valid cache => no download, invalid => exactly the chain's files; "
+      "the pool directory also holds lock files and unfinished copies (of present and of removed states) and the listing must report "
+      "exactly the states whose own file is there.",
       "Trusted: source labels as ground truth for scopes; the proximity order own path > same host > same gateway > other. "
       "Remote (ssh/scp) transports are outside the workload.", "DESIGN.md §3 C13")
 
@@ -148,7 +152,8 @@ check("C10", "T", "exploration", "decision-table oracle evaluated at every execu
 _P_NOTE = ("Trusted: the generator's drawn DAG as ground truth for generated suites and a hand-written parent table for the shipped suite; "
            "virttest's Params for resolving per-object parameters.")
 check("C06", "P", "exploration", "structural invariant checker over canonical descriptions of really parsed graphs (eager and after lazy expansion)",
-      "Acyclicity, single starting node, reachability, two-sided edges with equal object sets, unique identities, exactly one same-worker "
+      "Acyclicity, single starting node, reachability, two-sided edges with equal object sets, unique identities (node ids, and one node "
+      "per test, worker and objects whatever test set it was reached through), exactly one same-worker "
       "parent producing exactly each required state, one net object first, vms equal to the parameters, clone sources marked non-runnable.",
       _P_NOTE, "DESIGN.md §3 C06")
 check("C07", "P", "exploration", "comparison of parsed parents with the known (drawn or hand-declared) dependency DAG; clone-per-producer checks",
@@ -160,7 +165,9 @@ check("C07", "P", "exploration", "comparison of parsed parents with the known (d
 check("C09", "P", "exploration", "per-worker canonical subgraph comparison, bridge/register identity check, lazy-vs-eager and parse-twice comparison",
       "Per-worker copies must have identical dependencies for every class they share; equivalent tests of all workers must be linked "
       "pairwise and share the same four register objects; after a lazy traversal every expanded test has the parents of the up-front graph "
-      "and every selected compatible leaf was expanded; parsing twice gives the same graph.", _P_NOTE, "DESIGN.md §3 C09")
+      "and every selected compatible leaf was expanded; parsing twice gives the same graph. Besides the drawn cases every run covers a "
+      "fixed core: each shipped selection (incl. selections mixing test sets and vm restrictions spelled like an alternative of a test's "
+      "own OR-restriction) once.", _P_NOTE, "DESIGN.md §3 C09")
 
 ENGINES.append({"name": "Tools", "path": "vlib/toolsim.py, checks/c15.py, checks/c20.py", "serves_properties": ["C15", "C20"],
                 "kind_free_text": "tool-level engine: intertest_setup.update and Manu.run chains on the traversal simulator's seams plus the selftests' "
@@ -170,7 +177,8 @@ check("C15", "Tools", "exploration", "differential oracle: executions and unset 
       "For generated suites (state names equal setup test names) every ancestor-or-self pair (from_state, to_state) that lies in the remove-set "
       "graph, selections of 1-2 of up to 3 vms, remove_set values and 1-3 workers are sampled; executed setup tests must be exactly the path "
       "(each once), unset requests on every worker exactly the vm's states below the target, nothing of unselected vms; nonexistent "
-      "from/to states and targets outside the remove-set graph must raise. A third of the cases use three workers on two selected vms.",
+      "from/to states and targets outside the remove-set graph must raise. A third of the cases use three workers on two selected vms; "
+      "per-vm remove sets (remove_set_<vm>) differing from the generic one are drawn.",
       "Trusted: the drawn setup tree; remove_set=all (which selects object creation tests as leaves) and to_state=install (hard-wired to the "
       "shipped 'customize' test) are outside the workload.", "DESIGN.md §3 C15")
 check("C20", "Tools", "exploration", "step-attributed execution counting through the real Manu.run with failure injection (failing test class / exception inside a step)",
@@ -178,6 +186,7 @@ check("C20", "Tools", "exploration", "step-attributed execution counting through
       "restricted workers: per step, exactly one execution per selected vm and admitting worker (one per worker covering all vms for vm "
       "management steps), carrying the step's action and the user's parameter, none for unselected vms, steps in order and all executed "
       "even after a failing one (failing test class, or one of seven exception types raised inside a step), return code 1 iff some step "
-      "failed; a step that keeps executing until the job timeout or the iteration budget did not finish.",
+      "failed; a step that keeps executing until the job timeout or the iteration budget did not finish. A fifth of the cases have a worker "
+      "that is incompatible with the vm iterated last only.",
       "Trusted: the harness's own evaluation of only/no restrictions for worker compatibility; run/list/unittest steps need a real avocado job "
       "and are not driven.", "DESIGN.md §3 C20")
